@@ -36,15 +36,18 @@ pub struct Tuple {
     /// Some(schedule): `fml compile x.json -o x.bc` runs as two live invocations of the same command under the cooperative
     /// scheduler; the bytes in x.bc may not depend on who went when
     pub overlap_compile: Option<String>,
+    /// a signal (SIGTERM, SIGINT, SIGHUP) delivered to `run` / `execute` just before one of its writes to stdout: the run may die
+    /// of it or fail; a run that exits 0 printed everything
+    pub run_signal: Option<String>,
 }
 
 impl Tuple {
     pub fn baseline() -> Tuple {
-        Tuple { profile: Profile::Debug, hash_seed: 1, clock: None, junk: 0, env: vec![], aslr: false, via_stdin: false, argv0: None, nested_cwd: false, stale_outputs: false, io_plan: String::new(), dev_stdin_pipe: false, overlap_compile: None }
+        Tuple { profile: Profile::Debug, hash_seed: 1, clock: None, junk: 0, env: vec![], aslr: false, via_stdin: false, argv0: None, nested_cwd: false, stale_outputs: false, io_plan: String::new(), dev_stdin_pipe: false, overlap_compile: None, run_signal: None }
     }
     pub fn to_json(&self) -> Value {
         json!({"profile": self.profile.name(), "hash_seed": self.hash_seed, "clock": self.clock, "junk": self.junk, "env": self.env,
-               "aslr": self.aslr, "via_stdin": self.via_stdin, "argv0": self.argv0, "nested_cwd": self.nested_cwd, "stale_outputs": self.stale_outputs, "io_plan": self.io_plan, "dev_stdin_pipe": self.dev_stdin_pipe, "overlap_compile": self.overlap_compile})
+               "aslr": self.aslr, "via_stdin": self.via_stdin, "argv0": self.argv0, "nested_cwd": self.nested_cwd, "stale_outputs": self.stale_outputs, "io_plan": self.io_plan, "dev_stdin_pipe": self.dev_stdin_pipe, "overlap_compile": self.overlap_compile, "run_signal": self.run_signal})
     }
     pub fn from_json(v: &Value) -> Option<Tuple> {
         let mut env = Vec::new();
@@ -65,6 +68,7 @@ impl Tuple {
             io_plan: v.get("io_plan").and_then(|x| x.as_str()).unwrap_or("").to_string(),
             dev_stdin_pipe: v.get("dev_stdin_pipe").and_then(|x| x.as_bool()).unwrap_or(false),
             overlap_compile: v.get("overlap_compile").and_then(|x| x.as_str()).map(|s| s.to_string()),
+            run_signal: v.get("run_signal").and_then(|x| x.as_str()).map(|s| s.to_string()),
         })
     }
     pub fn random(rng: &mut Rng) -> Tuple {
@@ -106,6 +110,7 @@ impl Tuple {
             },
             dev_stdin_pipe: rng.below(8) == 0,
             overlap_compile: if rng.below(8) == 0 { Some((0..10).map(|_| if rng.coin() { '1' } else { '0' }).collect()) } else { None },
+            run_signal: if rng.below(10) == 0 { Some(format!("o:{}:S:{}", rng.below(4), rng.pick(&[15u32, 2, 1]))) } else { None },
         }
     }
 }
@@ -154,12 +159,9 @@ fn strip_timestamps(log: &[u8]) -> String {
 
 fn child_for(t: &Tuple, args: &[&str]) -> Child {
     let mut c = Child::new(t.profile, args);
-    // an *error* on the guest program's own stdout is no property's subject (DESIGN §11.2): run/execute get the plan without it
+    // run/execute also get the signal plan (a signal that arrives while the program prints)
     let guest = matches!(args.first(), Some(&"run") | Some(&"execute"));
-    let plan: String = if guest { t.io_plan.split(';').filter(|e| !(e.starts_with("o:") && e.contains(":y:"))).collect::<Vec<_>>().join(";") } else { t.io_plan.clone() };
-    c.env = t.env.clone();
-    c.aslr = t.aslr;
-    c.argv0 = t.argv0.clone();
+    let plan: String = match (&t.run_signal, guest) { (Some(sp), true) if t.io_plan.is_empty() => sp.clone(), (Some(sp), true) => format!("{};{}", t.io_plan, sp), _ => t.io_plan.clone() };
     c.shim = Some(ShimCfg { seed: t.hash_seed, plan, clock: t.clock.clone(), junk: t.junk, budget: None, ..Default::default() }); // no call budget: liveness is C06's and C08's claim, and the CPU watchdog bounds the child
     c
 }
@@ -308,7 +310,20 @@ pub fn difference(a: &Obs, b: &Obs) -> Option<(String, String)> {
 
 /// Under a tuple whose io_plan holds a passing I/O *error*, a stage may fail where the baseline succeeds; what may not happen is
 /// a stage that reports success with other bytes, or a run that exits 0 having printed something else.
-pub fn difference_narrow(a: &Obs, b: &Obs) -> Option<(String, String)> {
+pub fn difference_narrow(a: &Obs, b: &Obs, guest_stdout_error: bool) -> Option<(String, String)> {
+    if guest_stdout_error {
+        // the guest's own stdout failed in passing: what the tool does about it is no property's subject, but what arrived is a
+        // prefix of what the program prints — never repeated, reordered or invented bytes
+        if !a.run.stdout.starts_with(&b.run.stdout) {
+            let at = super::util::first_difference(&a.run.stdout, &b.run.stdout).unwrap_or(0);
+            return Some(("D3:run_output_not_a_prefix_after_a_passing_stdout_error".into(), format!("{} bytes arrived, the program prints {}; first difference at offset {}", b.run.stdout.len(), a.run.stdout.len(), at)));
+        }
+        if let (Some(x), Some(y)) = (&a.exec, &b.exec) {
+            if !x.stdout.starts_with(&y.stdout) {
+                return Some(("D4:execute_output_not_a_prefix_after_a_passing_stdout_error".into(), format!("{} bytes arrived, the program prints {}", y.stdout.len(), x.stdout.len())));
+            }
+        }
+    }
     if a.parse.exit.is_success() && b.parse.exit.is_success() && a.parse.out != b.parse.out {
         return Some(("D1:parse_output_differs".into(), format!("both exit 0 (one under a passing I/O error): {} vs {} bytes", a.parse.out.len(), b.parse.out.len())));
     }
@@ -318,7 +333,7 @@ pub fn difference_narrow(a: &Obs, b: &Obs) -> Option<(String, String)> {
             return Some(("D2:bytecode_differs".into(), format!("both exit 0 (one under a passing I/O error): {} vs {} bytes, first difference at offset {}", x.out.len(), y.out.len(), at)));
         }
     }
-    if a.run.exit.is_success() && b.run.exit.is_success() && a.run.stdout != b.run.stdout {
+    if !guest_stdout_error && a.run.exit.is_success() && b.run.exit.is_success() && a.run.stdout != b.run.stdout {
         return Some(("D3:run_output_differs".into(), format!("both exit 0 (one under a passing I/O error): {} vs {} bytes of stdout", a.run.stdout.len(), b.run.stdout.len())));
     }
     None
@@ -399,7 +414,7 @@ pub fn replay_case(c: &Case) -> Result<Option<(String, String)>, String> {
     if timed_out(&a) || timed_out(&b) {
         return Ok(None);
     }
-    let diff = if c.b.io_plan.contains(":y:") || c.a.io_plan.contains(":y:") { difference_narrow(&a, &b) } else { difference(&a, &b) };
+    let diff = if c.b.io_plan.contains(":y:") || c.a.io_plan.contains(":y:") || c.b.run_signal.is_some() { difference_narrow(&a, &b, c.b.io_plan.contains("o:") && c.b.io_plan.contains(":y:")) } else { difference(&a, &b) };
     Ok(diff.map(|(o, d)| (o, format!("{} [tuples differ in: {}]", d, varying_fields(&c.a, &c.b)))))
 }
 
@@ -418,6 +433,7 @@ fn varying_fields(a: &Tuple, b: &Tuple) -> String {
     if a.io_plan != b.io_plan { v.push("io_plan"); }
     if a.dev_stdin_pipe != b.dev_stdin_pipe { v.push("dev_stdin_pipe"); }
     if a.overlap_compile != b.overlap_compile { v.push("overlap_compile"); }
+    if a.run_signal != b.run_signal { v.push("run_signal"); }
     v.join("+")
 }
 
@@ -448,6 +464,7 @@ pub fn minimise(c: &Case, oracle: &str) -> Case {
     try_field!(io_plan);
     try_field!(dev_stdin_pipe);
     try_field!(overlap_compile);
+    try_field!(run_signal);
     try_field!(argv0);
     try_field!(nested_cwd);
     try_field!(via_stdin);
@@ -553,7 +570,7 @@ fn exercise(name: &str, spec: &ProgSpec, rng: &mut Rng, n_tuples: usize, history
             out.counters.push(("observations_skipped_cpu_watchdog", 1));
             continue;
         }
-        let diff = if t.io_plan.contains(":y:") { difference_narrow(&base, &o) } else { difference(&base, &o) };
+        let diff = if t.io_plan.contains(":y:") || t.run_signal.is_some() { difference_narrow(&base, &o, t.io_plan.contains("o:") && t.io_plan.contains(":y:")) } else { difference(&base, &o) };
         if let Some((oracle, detail)) = diff {
             out.violations.push((Case { spec: spec.clone(), a: base_t.clone(), b: t.clone(), history: vec![] }, oracle, detail));
         }
